@@ -31,8 +31,10 @@ def encEv : Ev → Json
   | .S id rid => Json.mkObj [("e", "S"), ("id", (id : Nat)), ("rid", (rid : Nat))]
   | .U id rid => Json.mkObj [("e", "U"), ("id", (id : Nat)), ("rid", (rid : Nat))]
 
-def encSt (s : St) : Json :=
+def encSt (s : St) (mutUnsub : Bool := false) : Json :=
   Json.mkObj [
+    -- what the subscription logger is told: before the repair C17-4 also the end of every mutation
+    ("seen", Json.arr ((if mutUnsub then s.log else seen s.log).map encEv).toArray),
     ("subs", Json.arr (s.subs.map fun e => Json.mkObj [("id", (e.id : Nat)), ("rid", (e.rid : Nat)),
       ("kind", match e.kind with | .sub => "sub" | .mut => "mut")]).toArray),
     ("stopped", jNats s.stopped), ("dead", jNats s.dead), ("log", Json.arr (s.log.map encEv).toArray),
@@ -47,7 +49,8 @@ def handle : Handler := fun req => do
     let mx := (req.getObjValAs? Nat "max").toOption.getD 200
     let cfg : Cfg := if (req.getObjValAs? Bool "old").toOption.getD false then { old with max := mx } else repairedWith mx
     let (s, bad) := replay cfg init ls 0
-    pure <| Json.mkObj [("state", encSt s), ("stuck", match bad with | some i => (i : Json) | none => Json.null)]
+    let mutUnsub := (req.getObjValAs? Bool "mutUnsub").toOption.getD false
+    pure <| Json.mkObj [("state", encSt s mutUnsub), ("stuck", match bad with | some i => (i : Json) | none => Json.null)]
   | _ => throw s!"C17: unknown op {op}"
 
 end Driver.C17
